@@ -17,7 +17,8 @@ EXPLANATION = (
     "species names installs the network's own element lists first -- unconditionally; R4 every class attribute KROMEReaction.preprocessing mutates "
     "is reset by initialize(), which Network calls before reading a file / creating a reaction from a string; R5 the renderers (templateloader.py, "
     "patches.py) never write to an object they were given (parameters and locals aliasing them): no in-place method, item/attribute store or del -- "
-    "the one sanctioned exception (network.reindex(), idempotent) is listed.")
+    "the one sanctioned exception (network.reindex(), idempotent) is listed; R6 outside species.py the process-wide Species tables are read only by the "
+    "listed readers (name parsing under installation, the Enzo patch's save/restore).")
 ASSUMPTIONS = [
     "byte identity of two actual runs is not decided",
     "Jinja's list_templates() returns a sorted list",
@@ -152,6 +153,44 @@ def check(ctx):
     _r3(ctx, pkg)
     _r4(ctx, pkg)
     _r5(ctx, pkg)
+    _r6(ctx, pkg)
+
+
+# ------------------------------------------------------------------ R6  who may READ the process-global tables
+
+GLOBAL_READERS = {
+    ("naunet/component.py", "Component._create_species"): "parsing a name: runs under the installation done by the Network entry points (R3)",
+    ("naunet/patches.py", "EnzoPatch.render"): "saves the list, adds the Enzo elements, restores it (R3)",
+}
+GLOBAL_TABLE_READS = re.compile(r"^Species\.(known_elements|known_pseudoelements|_known_elements|_known_pseudoelements|_replacement)$")
+
+
+def _r6(ctx, pkg):
+    """The element / pseudo-element / replacement tables of Species are process-wide and belong to whichever network was built or
+    edited LAST.  Outside species.py they are read only while a name is being parsed (right after the network installed its own
+    lists); anything else -- a view of a Network, the renderer -- that reads them makes its result depend on the other networks of
+    the process."""
+    n = 0
+    for f in pkg.files:
+        if f == SP or f.startswith("naunet/examples/"):
+            continue
+        for qual, fn in _functions(pkg, f):
+            for x in ast.walk(fn):
+                e = x.func if isinstance(x, ast.Call) else x
+                if not isinstance(e, ast.Attribute) or not isinstance(e.ctx, ast.Load):
+                    continue
+                t = ast.unparse(e)
+                if not GLOBAL_TABLE_READS.match(t):
+                    continue
+                if isinstance(x, ast.Attribute) and any(isinstance(p, ast.Call) and p.func is x for p in ast.walk(fn)):
+                    continue        # counted once, at the call
+                n += 1
+                why = GLOBAL_READERS.get((f, qual))
+                ctx.check(why is not None, "R6", f"{qual}:reads {t}", (f, x.lineno), f"sanctioned reader: {why}" if why else
+                          f"`{qual}` reads the process-global `{t}`: what it returns depends on the network that installed its lists last, not on this network "
+                          "(render A, build B, render A again gives different files)",
+                          expected="the network's own _known_elements / _known_pseudo_elements", found=t)
+    ctx.floor("R6", "reads of the global Species tables", n, 3)
 
 
 # ------------------------------------------------------------------ R5  rendering reads its inputs, it does not consume them
@@ -592,6 +631,7 @@ def _r4(ctx, pkg):
 
 
 MUTANTS = [
+    {"name": "elements-ordered-by-global-list", "file": NF, "old": "        return [spec for spec in self.species if spec.is_atom]", "new": "        rank = {n: i for i, n in enumerate(Species.known_elements())}\n        return sorted([spec for spec in self.species if spec.is_atom], key=lambda a: rank.get(a.name, len(rank)))", "rules": ["R6"]},
     {"name": "initialize-skipped-for-continued-file", "edits": [
         {"file": NF, "old": "    def add_reaction_from_file(self, filename: str | Path, format: str) -> None:", "new": "    def add_reaction_from_file(self, filename: str | Path, format: str, continued: bool = False) -> None:"},
         {"file": NF, "old": "        if rclass:\n            rclass.initialize()\n        else:\n            raise RuntimeError(f\"Unknown format: {format}\")", "new": "        if not rclass:\n            raise RuntimeError(f\"Unknown format: {format}\")\n        elif not continued:\n            rclass.initialize()"}], "rules": ["R4"]},
